@@ -1,0 +1,23 @@
+//go:build verif
+
+// Contracts for the deductive verifier in /verif (govc). Comment-only file: with the
+// "verif" build tag off it is invisible to the compiler.
+package server
+
+//@ import configv1 "github.com/istio-ecosystem/authservice/config/gen/go/v1"
+//@ import envoy "github.com/envoyproxy/go-control-plane/envoy/service/auth/v3"
+
+//@ func stringMatch
+//@   requires log != nil
+//@   ensures  spec: result == MatchSpec(match, path)
+
+//@ func matchTriggerRule
+//@   requires log != nil
+//@   ensures  spec: result == RuleSpec(rule, path)
+//@   loop 1 invariant excl: forall j int :: 0 <= j && j <= rangeindex ==> !MatchSpec(rule.GetExcludedPaths()[j], path)
+//@   loop 2 invariant incl: forall j int :: 0 <= j && j <= rangeindex ==> !MatchSpec(rule.GetIncludedPaths()[j], path)
+
+//@ func mustTriggerCheck
+//@   requires log != nil
+//@   ensures  spec: result == TriggerSpec(rules, req.GetAttributes().GetRequest().GetHttp().GetPath())
+//@   loop 1 invariant norule: forall j int :: 0 <= j && j <= rangeindex ==> !RuleSpec(rules[j], PathOnly(req.GetAttributes().GetRequest().GetHttp().GetPath()))
